@@ -18,7 +18,7 @@ BOUNDS = {"quick": "all graphs over universe {0,1,2} of the four classes (roles,
                    "listed restrictions) x all renamings + fresh-id shifts; templates star4 (Tet/SP), lonepair, dbond (PB/Atrop), ring4, sn2 with all "
                    "orderings / parities / group elements",
           "thorough": "universe {0,1,2,3} for MG/CRG; all decorations; templates star5 (TBP), star6 (Oct, orderings sampled by stride), twocentre"}
-OUTSIDE = "graphs with more than 4 atoms other than the templates (<= 8 atoms); renamings of templates beyond generators + 12 seeded permutations"
+OUTSIDE = "graphs whose descriptors name identifiers that are not atoms of the graph; graphs with more than 4 atoms other than the templates (<= 8 atoms); renamings of templates beyond generators + 12 seeded permutations"
 ASSUMPTIONS = ["a variant is built through the public API (relabel_atoms or re-insertion); the expected answer 'equal' follows from the construction, no oracle needed"]
 
 
@@ -69,6 +69,8 @@ def plan(tier, seed, func_mod="vp.props.C01"):
         params["flip"] = "bool"
         pre = fam.sel_pre(kk) + ["flip == False" if not gl.is_stereo(cname) else "True"]
         pre += ["not xa or (p0 and p1 and b01)"]
+        if gl.is_stereo(cname):
+            pre += ["ds < 10"]       # descriptors name atoms of the graph or placeholders (a descriptor naming a non-atom makes ==/hash raise: outside)
         if tier == "quick":
             pre += ["el < 2"]
             if gl.is_reaction(cname):
@@ -92,7 +94,7 @@ def plan(tier, seed, func_mod="vp.props.C01"):
         if tier == "quick":
             pre += {"star4": ["lig in (0, 1)", "gi % 4 == 0", "order % 5 == 0 or order < 4", "chg in (0, 2)"],
                     "lonepair": ["lig in (0, 1)", "gi % 4 == 0", "order % 5 == 0", "chg in (0, 1)"],
-                    "dbond": ["sub in (0, 1, 4)", "order % 9 == 0 or order < 3", "chg in (0, 3)", "gi % 2 == 0"],
+                    "dbond": ["sub in (0, 1, 2, 4)", "order % 9 == 0 or order < 3", "chg in (0, 3)", "gi % 2 == 0"],
                     "ring4": ["chg in (0, 2)"], "sn2": ["gi < 3"]}.get(n, [])
         else:
             pre += {"star6": ["order % 11 == 0", "gi % 5 == 0", "lig in (0, 1, 3)", "chg in (0, 2)"],
